@@ -36,6 +36,7 @@ class Contract:
     at_yield: list = field(default_factory=list)        # context-manager generators: clauses that hold while the body runs
     closure: dict = field(default_factory=dict)         # nested functions: free variables of the enclosing def -> type
     globals_in: dict = field(default_factory=dict)      # 'module.name' -> type: module globals the function reads (inputs)
+    locals: dict = field(default_factory=dict)          # local variable -> type string (unannotated locals such as `m = {}`)
 
 
 @dataclass
